@@ -47,8 +47,10 @@ enum Kind {
 	SoundOnFreshTrack,
 	/// child tracks of a sub-track that is created at the beginning of the history (not adopted yet)
 	NestedOnFreshTrack,
+	/// tweeners that are given a tween which never finishes (start time on a clock that does not exist) right after creation
+	TweenerMidTween,
 }
-const KINDS: [Kind; 18] = [
+const KINDS: [Kind; 19] = [
 	Kind::ProbeSoundMain,
 	Kind::StaticSoundMain,
 	Kind::SoundSub,
@@ -67,6 +69,7 @@ const KINDS: [Kind; 18] = [
 	Kind::SoundOnSpatial,
 	Kind::SoundOnFreshTrack,
 	Kind::NestedOnFreshTrack,
+	Kind::TweenerMidTween,
 ];
 const CAPS: [usize; 3] = [0, 1, 2];
 const LETTERS: [&str; 5] = ["create", "drop oldest handle", "drop newest handle", "finish oldest sound", "callback"];
@@ -130,7 +133,7 @@ impl Check for C08 {
 		format!("{:?} capacity {}", k, c)
 	}
 	fn rule(&self) -> String {
-		"all histories of length <= depth over {create, drop oldest handle, drop newest handle, finish oldest sound, callback} x 18 resource kinds (incl. sounds / child tracks of a track that is itself not adopted yet, child tracks / sounds of a spatial track with non-default capacities, child tracks of a paused parent, and child+grandchild chains dropped together) x capacity {0,1,2}, judged by a counting model (pending / adopted / marked); plus 5 stale-id scenarios (clock, modulator, listener, send track, sub-track slot reuse), 2 orphaned-storage scenarios, and 12-cycle create/drop recycling of 8 kinds at capacity 1 and 2. states = distinct model states (per-resource phase vectors); non-trivial = histories in which at least one creation succeeded and one removal happened".into()
+		"all histories of length <= depth over {create, drop oldest handle, drop newest handle, finish oldest sound, callback} x 19 resource kinds (incl. tweeners with a pending tween, sounds / child tracks of a track that is itself not adopted yet, child tracks / sounds of a spatial track with non-default capacities, child tracks of a paused parent, and child+grandchild chains dropped together) x capacity {0,1,2}, judged by a counting model (pending / adopted / marked); plus 5 stale-id scenarios (clock, modulator, listener, send track, sub-track slot reuse), 2 orphaned-storage scenarios, and 12-cycle create/drop recycling of 8 kinds at capacity 1 and 2. states = distinct model states (per-resource phase vectors); non-trivial = histories in which at least one creation succeeded and one removal happened".into()
 	}
 	fn assumptions(&self) -> Vec<String> {
 		vec![
@@ -240,7 +243,7 @@ fn run_history(kind: Kind, cap: usize, letters: &[u8], ctx: &mut Ctx) {
 		sub_track_capacity: if matches!(kind, Kind::SubTrack | Kind::SpatialTrack) { cap } else { big },
 		send_track_capacity: if kind == Kind::SendTrack { cap } else { big },
 		clock_capacity: if kind == Kind::Clock { cap } else { big },
-		modulator_capacity: if matches!(kind, Kind::Tweener | Kind::Lfo) { cap } else { big },
+		modulator_capacity: if matches!(kind, Kind::Tweener | Kind::Lfo | Kind::TweenerMidTween) { cap } else { big },
 		listener_capacity: if kind == Kind::Listener { cap } else { big },
 	};
 	let main = MainTrackBuilder::new().sound_capacity(if matches!(kind, Kind::ProbeSoundMain | Kind::StaticSoundMain | Kind::FallibleSoundMain) { cap } else { big });
@@ -523,6 +526,14 @@ fn create(r: &mut Rig, kind: Kind, serial: usize) -> Created {
 			Ok(h) => Created::Ok(Box::new(h), None),
 			Err(_) => Created::Limit,
 		},
+		Kind::TweenerMidTween => match r.m.add_modulator(TweenerBuilder { initial_value: 0.0 }) {
+			Ok(mut h) => {
+				// a tween that is still pending when the handle is dropped, whenever that is
+				h.set(1.0, Tween { start_time: StartTime::Delayed(Duration::from_secs(100_000)), duration: Duration::from_secs(1), easing: Easing::Linear });
+				Created::Ok(Box::new(h), None)
+			}
+			Err(_) => Created::Limit,
+		},
 		Kind::Lfo => match r.m.add_modulator(LfoBuilder::new()) {
 			Ok(h) => Created::Ok(Box::new(h), None),
 			Err(_) => Created::Limit,
@@ -553,7 +564,7 @@ fn reported_count(r: &mut Rig, kind: Kind) -> Option<usize> {
 		Kind::SoundOnSpatial => Some(r.sparent.as_ref().unwrap().num_sounds()),
 		Kind::SendTrack => Some(r.m.num_send_tracks()),
 		Kind::Clock => Some(r.m.num_clocks()),
-		Kind::Tweener | Kind::Lfo => Some(r.m.num_modulators()),
+		Kind::Tweener | Kind::Lfo | Kind::TweenerMidTween => Some(r.m.num_modulators()),
 		Kind::Listener => None,
 	}
 }
